@@ -89,9 +89,25 @@ def _collect_prefixes(tree, acc):
         _collect_prefixes(c, acc)
 
 
+MCE_PREFIX_LISTS = ("Requires", "mc:Ignorable", "mc:MustUnderstand")
+
+
+def _collect_mce_prefixes(tree, acc):
+    """the tokens of the Markup-Compatibility attributes that hold namespace PREFIXES (mc:Choice/@Requires, mc:Ignorable,
+    mc:MustUnderstand): they name namespaces through the declarations in scope, so they are declared and follow the spelling"""
+    if isinstance(tree, str):
+        return
+    for k, v in tree[1]:
+        if k in MCE_PREFIX_LISTS and (k != "Requires" or tree[0] == "mc:Choice"):
+            acc.update(t for t in v.split() if not t.startswith("{"))
+    for c in tree[2]:
+        _collect_mce_prefixes(c, acc)
+
+
 def xml_to_bytes(tree, sp=PLAIN):
     prefixes = set()
     _collect_prefixes(tree, prefixes)
+    _collect_mce_prefixes(tree, prefixes)
     decls = {}     # written prefix -> uri
     written = {}   # canonical prefix -> written prefix ('' = default namespace)
     n_unknown = 0
@@ -107,6 +123,8 @@ def xml_to_bytes(tree, sp=PLAIN):
             w = sp.rename.get(p, p)
         if sp.default_ns == p:
             w = ""
+        if w in decls and decls[w] != uri:
+            w = "nsq%d" % len(decls)      # two namespaces renamed onto one prefix: the later one gets a prefix of its own
         written[p] = w
         decls[w] = uri
     out = []
@@ -124,6 +142,22 @@ def xml_to_bytes(tree, sp=PLAIN):
                 return alt + ":" + local
             return local
         return w + ":" + local
+
+    def attr_value(elem_name, k, v):
+        if k in MCE_PREFIX_LISTS and (k != "Requires" or elem_name == "mc:Choice"):
+            # a list of prefixes: each token is written as the prefix this spelling binds to the namespace it stands for
+            import re as _re
+            toks = []
+            for t in _re.split(r"(\s+)", v):
+                if t and not t.isspace() and t in written:
+                    if written[t] == "":
+                        decls["dflt"] = decls[""]
+                        t = "dflt"
+                    else:
+                        t = written[t]
+                toks.append(t)
+            return "".join(toks)
+        return v
 
     rng = sp.rng
 
@@ -180,7 +214,7 @@ def xml_to_bytes(tree, sp=PLAIN):
             return
         q = qname(name, False)
         out.append("<" + q)
-        attr_strs = [' %s="%s"' % (qname(k, True), esc_attr(v)) for k, v in attrs]
+        attr_strs = [' %s="%s"' % (qname(k, True), esc_attr(attr_value(name, k, v))) for k, v in attrs]
         if top:
             out.append("@@NS@@")
         out.append("".join(attr_strs))
